@@ -62,7 +62,12 @@ def combine_Vars(vars1: Vars, vars2: Vars):
     return Vars(a, array)
 
 
+_SCALAR = (int, float, np.integer, np.floating)
+
+
 class Vars(VarsBasic):
+    # numpy arrays and numpy scalars on the left defer to the reflected operators below (ufuncs such as np.abs(vars) keep working)
+    __array_priority__ = 1000
 
     def __init__(self,
                  a: Address,
@@ -96,7 +101,7 @@ class Vars(VarsBasic):
 
     def __mul__(self, other: Union[int, float, Vars]) -> Vars:
         new_vars = deepcopy(self)
-        if isinstance(other, int) or isinstance(other, float):
+        if isinstance(other, _SCALAR):
             new_vars.array[:] = new_vars.array * other
             return new_vars
         elif isinstance(other, Vars):
@@ -110,7 +115,7 @@ class Vars(VarsBasic):
 
     def __rmul__(self, other: Union[int, float, Vars]) -> Vars:
         new_vars = deepcopy(self)
-        if isinstance(other, int) or isinstance(other, float):
+        if isinstance(other, _SCALAR):
             new_vars.array[:] = other * new_vars.array
             return new_vars
         elif isinstance(other, Vars):
@@ -120,16 +125,17 @@ class Vars(VarsBasic):
             raise TypeError(f'Input type {type(other)} invalid')
 
     def __add__(self, other: Union[int, float, Vars, np.ndarray]) -> Vars:
-        if isinstance(other, int) or isinstance(other, float):
+        if isinstance(other, _SCALAR):
             return Vars(self.a, self.array+other)
         elif isinstance(other, Vars):
             return Vars(self.a, self.array+other.array)
         elif isinstance(other, np.ndarray):
             return Vars(self.a, self.array+other)
+        return NotImplemented
 
     def __radd__(self, other: Union[int, float, Vars, np.ndarray]) -> Vars:
         new_vars = deepcopy(self)
-        if isinstance(other, int) or isinstance(other, float):
+        if isinstance(other, _SCALAR):
             new_vars.array[:] = other + new_vars.array
             return new_vars
         elif isinstance(other, Vars):
@@ -141,10 +147,11 @@ class Vars(VarsBasic):
             else:
                 new_vars.array[:] = other.reshape(-1, ) + new_vars.array
                 return new_vars
+        return NotImplemented
 
     def __sub__(self, other: Union[int, float, Vars, np.ndarray]) -> Vars:
         new_vars = deepcopy(self)
-        if isinstance(other, int) or isinstance(other, float):
+        if isinstance(other, _SCALAR):
             new_vars.array[:] = new_vars.array - other
             return new_vars
         elif isinstance(other, Vars):
@@ -156,10 +163,11 @@ class Vars(VarsBasic):
             else:
                 new_vars.array[:] = new_vars.array - other.reshape(-1, )
                 return new_vars
+        return NotImplemented
 
     def __rsub__(self, other: Union[int, float, Vars, np.ndarray]) -> Vars:
         new_vars = deepcopy(self)
-        if isinstance(other, int) or isinstance(other, float):
+        if isinstance(other, _SCALAR):
             new_vars.array[:] = other - new_vars.array
             return new_vars
         elif isinstance(other, Vars):
@@ -171,10 +179,11 @@ class Vars(VarsBasic):
             else:
                 new_vars.array[:] = other.reshape(-1, ) - new_vars.array
                 return new_vars
+        return NotImplemented
 
     def __truediv__(self, other: Union[int, float, Vars, np.ndarray]) -> Vars:
         new_vars = deepcopy(self)
-        if isinstance(other, int) or isinstance(other, float):
+        if isinstance(other, _SCALAR):
             new_vars.array[:] = new_vars.array / other
             return new_vars
         elif isinstance(other, Vars):
@@ -186,10 +195,11 @@ class Vars(VarsBasic):
             else:
                 new_vars.array[:] = new_vars.array / other.reshape(-1, )
                 return new_vars
+        return NotImplemented
 
     def __rtruediv__(self, other: Union[int, float, Vars, np.ndarray]) -> Vars:
         new_vars = deepcopy(self)
-        if isinstance(other, int) or isinstance(other, float):
+        if isinstance(other, _SCALAR):
             new_vars.array[:] = other / new_vars.array
             return new_vars
         elif isinstance(other, Vars):
@@ -201,6 +211,7 @@ class Vars(VarsBasic):
             else:
                 new_vars.array[:] = other.reshape(-1, ) / new_vars.array
                 return new_vars
+        return NotImplemented
 
     def derive_alias(self, suffix: str):
 
